@@ -1,11 +1,14 @@
 import Driver.Util
 import ImmuModel.Doc.Doc
+import ImmuModel.Doc.SqlBridge
 import Driver.C19Verify
 /-!
 Driver ops for C19 (document collections).  Wire format of documents (no spaces):
   n | t | f | d<16 hex IEEE bits> | s<hex utf8>; | [v*] | {(<hex key>:v)*}
 Queries: `*` or expressions separated by `|`, comparisons by `&`, each `field~OP~value`.
 Order: `*` or `field:a,field:d`.  Ids are hex.
+Secondary indexes (`ixsearch`): `*` or indexes separated by `,` in creation order, each the field names in
+index-column order separated by `+`, e.g. `n1+s1,b1`.
 -/
 namespace Driver.C19
 open ImmuModel ImmuModel.Doc
@@ -167,6 +170,32 @@ def fmtRev (r : Nat × Option JObj) : String :=
   | none => s!"{r.1}:D"
   | some j => s!"{r.1}:" ++ tokObj j
 
+
+-- ---------------------------------------------------------------- searches through the SQL planner model
+
+def parseSecs (s : String) : List (List Bytes) :=
+  if s == "*" then [] else (s.splitOn ",").map (fun ix => (ix.splitOn "+").map strBytes)
+
+/-- typed view of the live document with this id (the empty row if there is none: not reached) -/
+def rowOfId (c : Coll) (id : Bytes) : Row :=
+  match (liveHits c).find? (fun h => h.id == id) with
+  | some h => h.row
+  | none => []
+
+/-- maximal runs of ADJACENT elements related by `eq` (each element is compared with its successor) -/
+def splitRuns (eq : Bytes → Bytes → Bool) : List Bytes → List (List Bytes)
+  | [] => []
+  | x :: xs =>
+    match splitRuns eq xs with
+    | (y :: run) :: rest => if eq x y then (x :: y :: run) :: rest else [x] :: (y :: run) :: rest
+    | rest => [x] :: rest
+
+/-- the engine leaves the order of ORDER BY ties unspecified (it depends on the index scanned and on `sort.Slice`):
+within every maximal run of adjacent results whose rows compare equal under `ordCmp order` the ids are sorted
+bytewise; the runs stay in place -/
+def canonTies (c : Coll) (order : List (Bytes × Bool)) (ids : List Bytes) : List Bytes :=
+  (splitRuns (fun a b => ordCmp order (rowOfId c a) (rowOfId c b) == 0) ids).flatMap sortIds
+
 -- ---------------------------------------------------------------- ops
 
 def withColl (s : St) (n : String) (k : Coll → St × String) : St × String :=
@@ -247,6 +276,20 @@ def step (s : St) : List String → St × String
         -- without ORDER BY and paging the correspondence compares sets (the engine may scan another index)
         let ids := if qy.order.isEmpty && offset == 0 && qy.limit == 0 then sortIds ids else ids
         (s, fmtIds ids)
+    | _, _ => (s, "bad-op")
+  | ["ixsearch", n, secs, q, o, off, l] =>
+    match parseQuery q o l, off.toNat? with
+    | some qy, some offset => withColl s n fun c =>
+      match compile c.fields qy with
+      | .error e => (s, errStr e)
+      | .ok cq =>
+        match ixSearch c (parseSecs secs) cq offset with
+        | .error _ => (s, "err:eval")
+        | .ok (_, ids) =>
+          let ids :=
+            if qy.order.isEmpty then (if offset == 0 && qy.limit == 0 then sortIds ids else ids)
+            else canonTies c cq.order ids
+          (s, fmtIds ids)
     | _, _ => (s, "bad-op")
   | ["count", n, q, o, off, l] =>
     match parseQuery q o l, off.toNat? with
